@@ -241,6 +241,7 @@ Definition run_c04 (sub : N) (args : list (list N)) : list N :=
       | [10; datagram...] Close while the event of this datagram is in flight in the reader
       | [11; id] another user of the agent registers transaction id (far deadline)
       | [12; id] the application stops transaction id through the shared agent (agent.Stop)
+      | 13 :: id :: h :: raw  Start(id, raw, handler h) held between the client's checks and the agent while Close runs
    result per operation: number of observations, then each observation (sorted by instance within
    the operation): write = [1; inst; time; len; crc]; handler invocation = [2; inst; h; result code; len; crc];
    fallback = [3; h; id; kind; len; crc]; connection closed = [4]; return = [5; code] *)
@@ -289,6 +290,7 @@ Definition sort_obs (l : list obs) : list obs := fold_left (fun acc o => ins_obs
 Definition parse_cop (f : list N) : option cop :=
   match f with
   | 1 :: id :: h :: raw => Some (CStart (tid_id (mk_tid id)) raw h)
+  | 13 :: id :: h :: raw => Some (CStartRace (tid_id (mk_tid id)) raw h)
   | 2 :: raw => Some (CIndicate raw)
   | 3 :: d => Some (CDeliver d)
   | [4; now] => Some (CTick (Z.of_N now))
